@@ -2,7 +2,10 @@ package main
 
 import (
 	"fmt"
+	"go/constant"
+	"go/token"
 	"go/types"
+	"strings"
 
 	"golang.org/x/tools/go/ssa"
 )
@@ -91,6 +94,98 @@ func ruleCheckValue(c *Ctx) {
 		calls := callsTo(fn, c.P.Func("code39.checksumValue"))
 		ok := len(calls) == 1 && calls[0].Common().Args[0] == ssa.Value(fn.Params[0])
 		c.Check(R, "code39.getChecksum/value-source", fn.Pos(), ok, "checksumValue(content) of its own argument", fmt.Sprint(len(calls)))
+		// the character returned is the one whose table value is that sum
+		if len(calls) == 1 {
+			var sumV ssa.Value
+			for _, r := range *calls[0].Referrers() {
+				if ex, isEx := r.(*ssa.Extract); isEx && ex.Index == 0 {
+					sumV = ex
+				}
+			}
+			good, how := false, "no table search keyed by the check value"
+			if sumV != nil {
+				n := NewNormer(c.P)
+				n.Bind[sumV] = "sum"
+				// (a) search of encodeTable returning the key whose value equals sum
+				var next *ssa.Next
+				eachInstr(fn, func(b *ssa.BasicBlock, ins ssa.Instruction) {
+					if nx, isNx := ins.(*ssa.Next); isNx && !nx.IsString && n.Norm(rangeSubject(nx)).String() == "global:code39.encodeTable" {
+						next = nx
+					}
+				})
+				if next != nil {
+					var keyV ssa.Value
+					for _, r := range *next.Referrers() {
+						if ex, isEx := r.(*ssa.Extract); isEx && ex.Index == 1 {
+							keyV = ex
+						}
+					}
+					eachInstr(fn, func(b *ssa.BasicBlock, ins ssa.Instruction) {
+						bo, isBo := ins.(*ssa.BinOp)
+						if !isBo || bo.Op != token.EQL {
+							return
+						}
+						if !(bo.X == sumV || bo.Y == sumV) {
+							return
+						}
+						other := bo.X
+						if other == sumV {
+							other = bo.Y
+						}
+						if !strings.HasSuffix(n.Norm(other).String(), ".value") {
+							return
+						}
+						for _, ret := range returnsOf(fn) {
+							if cv, isCv := ret.Results[0].(*ssa.Convert); isCv && cv.X == keyV {
+								if imp, _, _ := CondRelation(n.ReachCond(fn, bo.Block(), ret.Block()), n.CondOf(bo)); imp {
+									good, how = true, "range over encodeTable, key returned when value == sum"
+								}
+							}
+						}
+					})
+				}
+				// (b) a constant alphabet string indexed by the sum: position i must hold the character of value i
+				eachInstr(fn, func(b *ssa.BasicBlock, ins ssa.Instruction) {
+					var str *ssa.Const
+					var idx ssa.Value
+					switch x := ins.(type) {
+					case *ssa.Slice:
+						if k, isK := x.X.(*ssa.Const); isK && x.Low == sumV {
+							str, idx = k, x.Low
+							if !pEqual(n.Norm(x.High), MustRef("sum + 1")) {
+								str = nil
+							}
+						}
+					case *ssa.Index:
+						if k, isK := x.X.(*ssa.Const); isK && x.Index == sumV {
+							str, idx = k, x.Index
+						}
+					case *ssa.Lookup:
+						if k, isK := x.X.(*ssa.Const); isK && x.Index == sumV {
+							str, idx = k, x.Index
+						}
+					}
+					if str == nil || idx == nil || str.Value == nil || str.Value.Kind() != constant.String {
+						return
+					}
+					tbl, err := c.P.EvalVar("code39", "encodeTable")
+					if err != nil {
+						return
+					}
+					alphabet := constant.StringVal(str.Value)
+					good, how = len(alphabet) >= 43, "alphabet string indexed by the check value"
+					for i := 0; i < len(alphabet) && i < 43; i++ {
+						e := tbl.MapGetInt(int64(alphabet[i]))
+						if e == nil || e.Field("value") == nil || e.Field("value").I != int64(i) {
+							good = false
+							how = fmt.Sprintf("alphabet string: position %d holds %q whose table value is not %d", i, alphabet[i], i)
+							break
+						}
+					}
+				})
+			}
+			c.Check(R, "code39.getChecksum/character-of-value", fn.Pos(), good, "returns the character whose encodeTable value equals the check value", how)
+		}
 	}
 
 	c.Doc("K5-CONTENT", "Content returns the stored content; encoders store the text they were given (EAN: the completed code; Code 39/93: the prepared string)")
